@@ -62,6 +62,8 @@ def correspondence(ctx, batch):
             samples.insert(rng.choice([0, 0, 1, len(samples)]), {"g": 1})
         if rng.random() < 0.15:
             samples = [{"g": 1}, {"f": "ok"}, {"f": "x" * rng.choice([19, 20, 25])}][::rng.choice([1, -1])]
+        elif rng.random() < 0.1:
+            samples = [{"f": ["w%dq" % j for j in range(rng.choice([2, 3, 9, 15]))] * rng.choice([2, 8, 9])}]
         stages.stage_generate(batch, samples, registry)
         job = common.gen_job(rng)
         job["maxLit"] = rng.randint(0, 16)
@@ -87,8 +89,11 @@ def find_literals(tp, out):
     return out
 
 
-def check_case(strings, with_null, job, registry, absent_at=None, nest=False):
+def check_case(strings, with_null, job, registry, absent_at=None, nest=False, container=None):
     samples = [{"f": s, "g": 1} for s in strings] + ([{"f": None, "g": 1}] if with_null else [])
+    if container:
+        # the position is the element of ONE list holding all the strings, each `container` times
+        samples = [{"f": list(strings) * container, "g": 1}]
     if absent_at is not None:
         samples.insert(min(absent_at, len(samples)), {"g": 1})      # the position is optional by absence
     if nest:
@@ -106,6 +111,8 @@ def check_case(strings, with_null, job, registry, absent_at=None, nest=False):
         cls, chain = found[0]
     ann = real.hints(cls, ns, chain)
     name = "f"
+    if container and typing.get_origin(ann[name]) not in (list, typing.List):
+        return {"kind": "module-does-not-load", "observed": f"list field annotated {ann[name]!r}", "text": text}
     lits = find_literals(ann[name], [])
     P = plain_strings(registry, strings)
     # "whenever, in addition, no string at that position had to be generalised to str": pseudo-typed strings of kinds
@@ -154,8 +161,14 @@ def falsify(ctx):
             if rng.random() < 0.5:
                 strings.reverse()
             absent_at = rng.choice([0, 0, 1, None])
+        container = None
+        if i >= len(sweep) and rng.random() < 0.15:
+            # few distinct values, many occurrences in one list (multiplicity is not distinctness)
+            strings = ["w%dq" % j for j in range(rng.choice([2, 3, 5, 9, 15]))]
+            container, with_null, absent_at = rng.choice([2, 4, 8, 9]), False, None
+            job["maxLit"] = rng.choice([10, 16, 20])
         try:
-            hit = check_case(strings, with_null, job, registry, absent_at, nest)
+            hit = check_case(strings, with_null, job, registry, absent_at, nest, container)
         except stages.TooCostly:
             ctx.count("skip:too-costly")
             continue
@@ -164,14 +177,14 @@ def falsify(ctx):
         ctx.case((tuple(strings), job["maxLit"], job["fw"]), nontrivial=len(set(strings)) >= 2)
         ctx.sample({"strings": strings, "maxLit": job["maxLit"], "fw": job["fw"]}, limit=3)
         if hit:
-            hit.update({"strings": strings, "with_null": with_null, "job": job, "absent_at": absent_at, "nest": nest})
+            hit.update({"strings": strings, "with_null": with_null, "job": job, "absent_at": absent_at, "nest": nest, "container": container})
             yield hit
 
 
 def replay(ctx, hit):
     try:
         return check_case(hit["strings"], hit["with_null"], hit["job"], stages.make_registry(), hit.get("absent_at"),
-                          hit.get("nest", False))
+                          hit.get("nest", False), hit.get("container"))
     except stages.TooCostly:
         raise
     except Exception as e:  # noqa
